@@ -116,16 +116,21 @@ class MulticastOutgoingQueue:
         def gone(record: DNSRecord) -> bool:
             if record.key == key or (isinstance(record, DNSPointer) and record.alias_key == key):
                 return True
-            if record.key != server_key:
-                return False
-            kept = shared.get(record)
-            return kept is None or kept.ttl != record.ttl
+            return record.key == server_key and record not in shared
+
+        def kept(record: DNSRecord) -> DNSRecord:
+            # a record of the host that another service advertises as well goes out
+            # as that service has it (its TTL may differ)
+            return shared.get(record, record) if record.key == server_key else record
 
         for pending in self.queue:
-            for record in [record for record in pending.answers if gone(record)]:
-                del pending.answers[record]
-            for additionals in pending.answers.values():
-                additionals.difference_update([record for record in additionals if gone(record)])
+            answers: _AnswerWithAdditionalsType = {}
+            for record, additionals in pending.answers.items():
+                if gone(record):
+                    continue
+                # (a new set: the queued one may be the set a ServiceInfo keeps of its own records)
+                answers[kept(record)] = {kept(additional) for additional in additionals if not gone(additional)}
+            pending.answers = answers
 
     def async_ready(self) -> None:
         """Process anything in the queue that is ready."""
